@@ -1,5 +1,6 @@
 import Pike.Model.Proxy
 import Pike.Model.Query
+import Pike.Model.Conditional
 import Pike.Lemmas.Header
 import Pike.Lemmas.Rewrite
 import Pike.Spec.Skeleton
@@ -285,6 +286,21 @@ theorem added_parameter_has_no_separator (s : Str) : '&' ∉ Query.escape s ∧ 
                ⟨by decide, fun h => ha.2.2 h.symm, fun h => hb.2.2 h.symm, ih.2.2⟩⟩
 
 example : Query.escape "a&b=c d%".toList = "a%26b%3Dc+d%25".toList := by decide
+
+/-- "… yet the client itself still gets a 304 when its validators match" (`Model/Conditional.lean`: the decision of the
+`fresh` step of `server.Start`'s chain, compared on every `cond` history of the `fault` suite — cold key and hit — with what
+a real listening server answers): the client gets a 304 if and only if it sent at least one validator, did not ask for
+revalidation (`Cache-Control: no-cache` in the request) and EVERY validator it sent matches the stored full answer —
+`If-None-Match` by ETag (weak comparison, token list, `*`), `If-Modified-Since` by Last-Modified. -/
+theorem client_304_iff_validators_match (imsPresent : Bool) (ims lm : Nat) (inm cc etag : Str)
+    (hcc : Conditional.hasNoCache cc = false) :
+    Conditional.check imsPresent ims inm cc lm etag = true ↔
+      ((imsPresent = true ∨ inm ≠ []) ∧ Conditional.inmOK inm etag = true ∧ Conditional.imsOK imsPresent ims lm = true) :=
+  ⟨Conditional.check_sound, fun ⟨hv, h1, h2⟩ => Conditional.check_complete hv hcc h1 h2⟩
+
+example : Conditional.check true 1704067200 "\"zz\", W/\"c1\"".toList [] 1704067200 "\"c1\"".toList = true
+    ∧ Conditional.check true 1703980800 "\"c1\"".toList [] 1704067200 "\"c1\"".toList = false
+    ∧ Conditional.check false 0 "\"c1\"".toList "max-age=0, no-cache".toList 1704067200 "\"c1\"".toList = false := by decide
 
 end C15
 end Pike
